@@ -160,6 +160,16 @@ func c05Scenario(r *vx.Rand) {
 		w.Gate().AddFault(f)
 		rec.Count("c05:split-during-read")
 	}
+	if r.Chance(35) {
+		// a merge of two regions just before a request of the reader: the cached region is smaller than the real one
+		f := hub.MergeFault(pick(r, keyPool))
+		f.Client, f.N = rd, r.Intn(8)
+		if r.Bool() {
+			f.Match = isScan
+		}
+		w.Gate().AddFault(f)
+		rec.Count("c05:merge-during-read")
+	}
 	var snap *hub.Snap
 	open := func(warm bool) *hub.Snap {
 		if warm && snap != nil {
@@ -197,6 +207,232 @@ func c05Scenario(r *vx.Rand) {
 	}
 }
 
+func isScan(kind, cmd string) bool { return kind == "scan" || kind == "rscan" }
+
+// c05Generation commits one transaction that sets / deletes / leaves each key (sequential, no faults).
+func c05Generation(w *hub.World, name string, keys [][]byte, gen int, r *vx.Rand) bool {
+	c := w.NewClient(name)
+	ok := runAll(w, scenarioTimeout, func() {
+		c.Begin(r.Chance(30), pick(r, modes))
+		n := 0
+		for i, k := range keys {
+			switch x := r.Intn(100); {
+			case x < 50:
+				c.Set(k, []byte{byte(0x70 + gen), byte(i)})
+				n++
+			case x < 75:
+				c.Delete(k)
+				n++
+			}
+		}
+		if n == 0 {
+			c.Set(pick(r, keys), []byte{byte(0x70 + gen), 0xff})
+		}
+		c.Commit()
+	})
+	return ok && w.WaitDrained(scenarioTimeout)
+}
+
+// c05ReadOnce reads through one access path on the snapshot handle.
+func c05ReadOnce(s *hub.Snap, path string, keys, pool [][]byte, r *vx.Rand) {
+	switch path {
+	case "get":
+		for _, k := range subsetNonEmpty(r, keys, 60) {
+			s.Get(k)
+		}
+	case "bget":
+		async := r.Bool()
+		restore := config.UpdateGlobal(func(c *config.Config) { c.EnableAsyncBatchGet = async })
+		s.BGet(subsetNonEmpty(r, keys, 70), "async="+map[bool]string{false: "0", true: "1"}[async])
+		restore()
+	default:
+		a, b := pick(r, pool), pick(r, pool)
+		if bytes.Compare(a, b) > 0 {
+			a, b = b, a
+		}
+		switch r.Intn(5) {
+		case 0, 1:
+			a, b = nil, nil
+		case 2:
+			b = nil
+		case 3:
+			a = nil
+		}
+		limit := 0
+		if r.Chance(20) {
+			limit = 1 + r.Intn(4)
+		}
+		if path == "iter" {
+			s.Iter(a, b, limit)
+		} else {
+			s.RIter(a, b, limit)
+		}
+	}
+	rec.Count("c05:path:" + path)
+}
+
+func subsetNonEmpty(r *vx.Rand, keys [][]byte, p int) [][]byte {
+	out := subset(r, keys, p)
+	if len(out) == 0 {
+		out = [][]byte{pick(r, keys)}
+	}
+	return out
+}
+
+var c05Paths = []string{"get", "bget", "iter", "riter"}
+
+// c05Repin: a long-lived KVSnapshot object whose timestamp is moved with SetSnapshotTS — to an earlier, a later or the same
+// timestamp — between reads through all four access paths.  The history has one committed generation per recorded
+// timestamp, so keys are created, overwritten and deleted between any two of them; some histories carry the locks of a dead
+// writer.  Every snap* event carries the timestamp in force; the judge compares with the model store at that timestamp.
+func c05Repin(r *vx.Rand) {
+	nKeys := 3 + r.Intn(3)
+	keys := keyPool[:nKeys]
+	w := hub.NewWorld(rec, hub.Options{Full: lean, Seed: r.U64(), Splits: pick(r, layoutsOf(1+r.Intn(3)))})
+	defer w.Close()
+	for _, k := range keys {
+		w.TrackKey(k)
+	}
+	rd := w.NewClient("r")
+	var tss []uint64
+	gens := 2 + r.Intn(3)
+	deadAt := -1
+	if r.Chance(30) {
+		deadAt = r.Intn(gens)
+	}
+	for g := 0; g < gens; g++ {
+		if !c05Generation(w, fmt.Sprintf("g%d", g), keys, g, r) {
+			return
+		}
+		if g == deadAt {
+			c05Writer(w, "wd", subsetNonEmpty(r, keys, 40), pick(r, []string{"pending", "primary-only", "pess"}), 8, r)
+			if w.Hung() {
+				return
+			}
+			w.AdvanceClock(60000)
+		}
+		tss = append(tss, rd.CurrentTS())
+	}
+	bs := 0
+	if r.Chance(70) {
+		bs = 2 + r.Intn(5)
+	}
+	snap := rd.Snapshot(pick(r, tss), bs, r.Chance(20))
+	nOps := 8 + r.Intn(8)
+	ok := runAll(w, scenarioTimeout, func() {
+		for i := 0; i < nOps; i++ {
+			if i > 0 && r.Chance(35) {
+				old, ts := snap.TS(), pick(r, tss)
+				snap.SetTS(ts)
+				switch {
+				case ts < old:
+					rec.Count("c05:repin:back")
+				case ts > old:
+					rec.Count("c05:repin:forward")
+				default:
+					rec.Count("c05:repin:same")
+				}
+				continue
+			}
+			if r.Chance(10) {
+				// a fresh object at the same timestamp (cold cache) for comparison
+				snap = rd.Snapshot(snap.TS(), bs, r.Chance(20))
+			}
+			c05ReadOnce(snap, pick(r, c05Paths), keys, keyPool, r)
+		}
+	})
+	if ok {
+		w.Quiesce(scenarioTimeout)
+	}
+}
+
+// the wider key pool of the merge family: eight keys, up to four regions
+var c05WidePool = [][]byte{{0x61}, {0x62}, {0x63}, {0x64}, {0x65}, {0x66}, {0x67}, {0x68}}
+
+// c05Merge: regions are MERGED under a reader: between two calls (stale cache entries for Get / BatchGet / the first scan
+// request) and just before a scan request (the first attempt is refused with EpochNotMatch / RegionNotFound and the retry
+// inside the same batch fetch locates the larger region), with small scan batches so that fewer pairs than the batch size
+// are left before the old boundary; both directions; a split may follow the merge.
+func c05Merge(r *vx.Rand) {
+	nKeys := 4 + r.Intn(5)
+	keys := c05WidePool[:nKeys]
+	// 2–4 regions: boundaries drawn from the pool (ascending)
+	var splits [][]byte
+	for _, k := range c05WidePool[1:] {
+		if len(splits) < 3 && r.Chance(35) {
+			splits = append(splits, k)
+		}
+	}
+	if len(splits) == 0 {
+		splits = [][]byte{pick(r, c05WidePool[1:nKeys])}
+	}
+	stores := 1
+	if r.Chance(20) {
+		stores = 3
+	}
+	w := hub.NewWorld(rec, hub.Options{Full: lean, Seed: r.U64(), Splits: splits, Stores: stores})
+	defer w.Close()
+	for _, k := range keys {
+		w.TrackKey(k)
+	}
+	if !seed(w, subsetNonEmpty(r, keys, 85)) {
+		return
+	}
+	if r.Chance(40) && !c05Generation(w, "g1", keys, 1, r) {
+		return
+	}
+	rd := w.NewClient("r")
+	snapTS := rd.CurrentTS()
+	if r.Chance(30) {
+		// a later generation: newer versions the snapshot must not see
+		if !c05Generation(w, "g2", keys, 2, r) {
+			return
+		}
+	}
+	bs := 2 + r.Intn(5)
+	snap := rd.Snapshot(snapTS, bs, r.Chance(15))
+	g := w.Gate()
+	nOps := 4 + r.Intn(6)
+	ok := runAll(w, scenarioTimeout, func() {
+		if r.Chance(60) {
+			// warm the region cache (and, for get / bget, the snapshot cache) with the layout before the merge
+			c05ReadOnce(snap, pick(r, c05Paths), keys, c05WidePool, r)
+		}
+		merges := 1 + r.Intn(2)
+		for i := 0; i < nOps; i++ {
+			if merges > 0 && r.Chance(50) {
+				merges--
+				k := pick(r, c05WidePool)
+				switch r.Intn(3) {
+				case 0:
+					// between two calls
+					if w.Merge(k) {
+						rec.Count("c05:merge:between-calls")
+					}
+				default:
+					// just before the n-th scan request from here on (0 = the first request of the next scan)
+					f := hub.MergeFault(k)
+					f.Client, f.N, f.Match = rd, r.Intn(3), isScan
+					g.AddFault(f)
+					rec.Count("c05:merge:before-scan-rpc")
+				}
+				if r.Chance(20) {
+					f := hub.SplitFault(pick(r, c05WidePool[1:]))
+					f.Client, f.N = rd, 1+r.Intn(4)
+					g.AddFault(f)
+				}
+			}
+			if r.Chance(15) {
+				snap = rd.Snapshot(snapTS, 2+r.Intn(5), r.Chance(15))
+			}
+			c05ReadOnce(snap, pick(r, []string{"get", "bget", "iter", "riter", "iter", "riter"}), keys, c05WidePool, r)
+		}
+	})
+	if ok {
+		w.Quiesce(scenarioTimeout)
+	}
+}
+
 func runC05() {
 	n := 2000
 	if run.Thorough() {
@@ -204,6 +440,16 @@ func runC05() {
 	}
 	n = scaled(n)
 	for i := 0; i < n; i++ {
-		c05Scenario(rnd.Fork())
+		switch {
+		case i%5 == 3:
+			c05Repin(rnd.Fork())
+			rec.Count("c05:family:repin")
+		case i%5 == 4:
+			c05Merge(rnd.Fork())
+			rec.Count("c05:family:merge")
+		default:
+			c05Scenario(rnd.Fork())
+			rec.Count("c05:family:leftover-locks")
+		}
 	}
 }
